@@ -3,8 +3,9 @@
    N, positive, nat stay the extracted inductives. No Extract Constant. *)
 Require Extraction.
 Require Import ExtrOcamlBasic.
-From Mdns Require Import Res Bytes Utf8 Txt.
+From Mdns Require Import Res Bytes Utf8 Txt Rec Wire.
 Extraction Language OCaml.
 Extraction "model.ml"
   Txt.service_new_txt Txt.encode_txt Txt.decode_txt Txt.decode_txt_unique Txt.txt_get
-  Txt.accepted Txt.dedup_ci Utf8.utf8_valid.
+  Txt.accepted Txt.dedup_ci Utf8.utf8_valid
+  Wire.decode Wire.read_name.
